@@ -105,6 +105,7 @@ def spec_env(module=None):
     env["re_group"] = lambda p, s, g, kind="match": _m(p, s, kind).group(g)
     env["is_digits"] = lambda s: _re.fullmatch(r"[0-9]+", s) is not None
     env["nonnull"] = lambda x: x
+    env["squeeze"] = lambda x: str(x).replace(" ", "")
     for name, src in C.PYSPECS.items():
         exec(src, env)
     for name, sp in C.SPECS.items():
